@@ -5,6 +5,7 @@ from ast import AST
 from collections import defaultdict
 from collections.abc import Mapping
 from inspect import Signature
+from keyword import iskeyword
 from typing import Union
 
 from ...code_tools.ast_templater import ast_substitute
@@ -153,7 +154,12 @@ class BuiltinBroachingCodeGenerator(BroachingCodeGenerator):
                 args.append(sub_ast)
             elif isinstance(arg, KeywordArg):
                 sub_ast = self._gen_plan_element_dispatch(state, arg.element)
-                keywords.append(ast.keyword(arg=arg.key, value=sub_ast))  # type: ignore[call-overload]
+                if arg.key.isidentifier() and not iskeyword(arg.key):
+                    keywords.append(ast.keyword(arg=arg.key, value=sub_ast))  # type: ignore[call-overload]
+                else:
+                    keywords.append(
+                        ast.keyword(value=ast.Dict(keys=[ast.Constant(arg.key)], values=[sub_ast])),  # type: ignore[call-overload, list-item]
+                    )
             elif isinstance(arg, UnpackMapping):
                 sub_ast = self._gen_plan_element_dispatch(state, arg.element)
                 keywords.append(ast.keyword(value=sub_ast))  # type: ignore[call-overload]
